@@ -7,7 +7,7 @@
 //   probe <m> p1..pm     GNode::findHoppingDestination(p) -> "sel i1..im" (event index, 0-based)
 //   cells                partition of [0,1] by the tree's own thresholds: for every cell between
 //                        consecutive thresholds the event selected at its midpoint, the cell ends
-//                        as integer numerators llround(t*S) (S = escape rate, integer valued);
+//                        as integer numerators llround(t*S) (S = the tree's sum of rates, integer valued);
 //                        also probes p=0, p=1 and every threshold itself
 //   marcus ...           Rate_Engine::Rate on constructed Segment/QMPair objects
 //   promote <raw> <k>    KMCCalculator::Promotetime(k) with the uniform variate scripted to raw
@@ -128,7 +128,9 @@ int main() {
         }
         std::cout << std::endl;
       } else if (cmd == "cells") {
-        const double S = node->getEscapeRate();
+        // numerators over the tree's own normalisation (huffmanTree::sum_of_values); that the
+        // escape rate equals the sum is checked separately
+        const double S = node->hTree.sum_of_values;
         std::vector<double> t{0.0, 1.0};
         bool inrange = true;
         for (const auto& hn : node->hTree.htree) {
